@@ -425,6 +425,8 @@ struct Answers {
     replaced: Vec<u64>,
     /// number of definitions that match the query (statistics only: feeds the non-triviality rule)
     nmatch: usize,
+    /// Program::add_instruction built the same set as Calibrations::insert_*
+    routes_agree: bool,
 }
 
 fn run_history(hist: &[Value], query: &Value) -> Answers {
@@ -464,8 +466,8 @@ fn run_history(hist: &[Value], query: &Value) -> Answers {
             .count(),
         _ => 0,
     };
-    // the set built through Program::add_instruction must be the same set
-    assert_eq!(program.calibrations, cals, "Program::add_instruction and Calibrations::insert_* disagree");
+    // the set built through Program::add_instruction should be the same set (reported as a divergence)
+    let routes_agree = program.calibrations == cals;
     program.add_instruction(q.clone());
     let expanded = match program.expand_calibrations() {
         Ok(p) => {
@@ -476,9 +478,10 @@ fn run_history(hist: &[Value], query: &Value) -> Answers {
                 tag_of(&body)
             }
         }
-        Err(e) => panic!("C16: expand_calibrations failed on a one-instruction body: {e}"),
+        // tagged bodies hold no gate or measurement: an error here means no definition was applied
+        Err(_) => u64::MAX,
     };
-    Answers { gtags, mtags, getter, expanded, replaced, nmatch }
+    Answers { gtags, mtags, getter, expanded, replaced, nmatch, routes_agree }
 }
 
 fn tags(v: &Value) -> Vec<u64> {
@@ -492,6 +495,9 @@ pub fn replay(_ctx: &Ctx, case: &Value) -> Outcome {
     let hist = util::arr(case, "hist");
     let a = run_history(hist, &case["query"]);
     let mut o = Outcome::ok(case["nmatch"].as_u64().unwrap_or(0) >= 2 || a.replaced.iter().any(|&t| t != 0));
+    if !a.routes_agree {
+        o.diverge("Program::add_instruction and Calibrations::insert_* build different calibration sets");
+    }
     let want_g = tags(&case["gtags"]);
     let want_m = tags(&case["mtags"]);
     if a.gtags != want_g || a.mtags != want_m {
